@@ -872,6 +872,60 @@ def r13(ctx, facts):
         raise AnchorLost("RawRowLendingIterator::next: the checked decrement of `remaining` not found")
 
 
+def r14(ctx, facts):
+    """VectorIterator::nth (the fast path `skip` / `step_by` go through) subtracts `n + 1` from `remaining` on its error and success
+    paths; that is panic-free only under `n < remaining`. The reviewed table of R1 lists those subtractions as guarded - this rule
+    re-checks WHICH comparison guards them: `n >= remaining` must have left (seed C08-l: `n > remaining` lets n == remaining through,
+    a truncated cell then underflows)."""
+    from ..util import backward_slice
+    r = ctx.rule("R14", "VectorIterator::nth: `remaining -= n + 1` only where `n < remaining` was established", floor=1)
+    b = facts.one(r"^<scylla_cql_core::deserialize::value::VectorIterator<'frame, 'metadata, T> as core::iter::traits::iterator::Iterator>::nth$")
+    npar = [l for l in range(1, b.argc + 1) if b.local_name(l) == "n"]
+    if len(npar) != 1:
+        raise AnchorLost("VectorIterator::nth: parameter `n` not found")
+    N = npar[0]
+
+    def is_n(op):
+        return op[0] in ("c", "m") and (op[1][0] == N or N in backward_slice(b, op)[0]) and not is_rem(op)
+
+    def is_rem(op):
+        if op[0] not in ("c", "m"):
+            return False
+        if any(isinstance(e, list) and e[0] == "f" and e[2] == "remaining" for e in op[1][1]):
+            return True
+        d = b.single_def(op[1][0])
+        return bool(d and d[0] == "stmt" and d[3][0] == "use" and d[3][1][0] in ("c", "m") and any(isinstance(e, list) and e[0] == "f" and e[2] == "remaining" for e in d[3][1][1][1]))
+    subs = [bb for bb in sorted(b.live_blocks) if b.term(bb)[0] == "assert" and str(b.term(bb)[3]) == "Overflow:Sub" and is_rem(b.term(bb)[4][0])]
+    if not subs:
+        raise AnchorLost("VectorIterator::nth: no subtraction from `remaining` found")
+    guards = []        # (switch block, successor on which n < remaining holds)
+    for sw in sorted(b.live_blocks):
+        t = b.term(sw)
+        if t[0] != "switch" or t[1][0] not in ("c", "m"):
+            continue
+        sd = b.single_def(t[1][1][0])
+        if not (sd and sd[0] == "stmt" and sd[3][0] == "bin" and sd[3][1] in ("Lt", "Le", "Gt", "Ge")):
+            continue
+        op, a0, a1 = sd[3][1], sd[3][2], sd[3][3]
+        if is_rem(a0) and is_n(a1):
+            op = {"Lt": "Gt", "Gt": "Lt", "Le": "Ge", "Ge": "Le"}[op]
+        elif not (is_n(a0) and is_rem(a1)):
+            continue
+        edges = {int(v): tg for v, tg in t[2]}
+        false_tg = edges.get(0, t[3])
+        true_tg = t[3] if 0 in edges else edges.get(1, t[3])
+        if op == "Lt":
+            guards.append((sw, true_tg))
+        elif op == "Ge":
+            guards.append((sw, false_tg))
+    for k, sb in enumerate(subs):
+        ok = any(b.dominates(tg, sb) or tg == sb for sw, tg in guards if b.dominates(sw, sb))
+        r.instance("subtraction-under-n-lt-remaining#%d" % k, ok,
+                   "`remaining -= n + 1` is not dominated by the `n < remaining` side of a comparison of n with remaining (a guard `n > remaining` "
+                   "lets n == remaining through): on a truncated fixed-size vector cell `nth(remaining)` underflows - a panic in debug builds, a "
+                   "2^64-element iterator of errors in release", b.term_span(sb))
+
+
 def check(ctx):
     facts = ctx.facts("default")
     try:
@@ -884,7 +938,7 @@ def check(ctx):
     for p, n in per.items():
         anc.instance("entry:" + p, n > 0, "%d bodies match" % n, nontrivial=False)
     ctx.extra["decode_reachable_bodies"] = len(pred)
-    for fn in (lambda: r1(ctx, facts, cg, pred), lambda: r2(ctx, facts), lambda: r3(ctx, facts, cg, pred), lambda: r4(ctx, facts, cg, pred), lambda: r5(ctx, facts), lambda: r6(ctx, facts), lambda: r7(ctx, inline_view_(facts)), lambda: r8(ctx, facts, pred), lambda: r11_guard(ctx), lambda: r12(ctx, inline_view_(facts)), lambda: r13(ctx, inline_view_(facts))):
+    for fn in (lambda: r1(ctx, facts, cg, pred), lambda: r2(ctx, facts), lambda: r3(ctx, facts, cg, pred), lambda: r4(ctx, facts, cg, pred), lambda: r5(ctx, facts), lambda: r6(ctx, facts), lambda: r7(ctx, inline_view_(facts)), lambda: r8(ctx, facts, pred), lambda: r11_guard(ctx), lambda: r12(ctx, inline_view_(facts)), lambda: r13(ctx, inline_view_(facts)), lambda: r14(ctx, inline_view_(facts))):
         try:
             fn()
         except AnchorLost as ex:
